@@ -36,6 +36,7 @@ def cases(rng, tier):
                 c["coef"][0] = "0"
             c["coef2"] = [str(rng.dyadic(-16, 16, 4)) for _ in range(rng.randint(1, 3))]
             c["normalized"] = rng.random() < 0.5
+            c["argrep"] = S.pick_argrep(rng)      # the flag as the literal, numpy.bool_, a 0-d array, 0 / 1
             c["via"] = rng.choice(["process", "weaver"])
             c["sin"] = False
             # trends whose values are external to the model (judged by the oracle against y_i + f(x_i))
@@ -144,6 +145,7 @@ def run_impl(c):
     k = c["kind"]
     try:
         if k in ("trend", "lintrend"):
+            NZ = S.flag(c["normalized"], c.get("argrep", "plain"))
             seen = []
             f1 = poly([Fraction(v) for v in c["coef"]])
 
@@ -153,27 +155,27 @@ def run_impl(c):
             f2 = poly([Fraction(v) for v in c["coef2"]])
             if c["via"] == "process":
                 if k == "lintrend":
-                    rx, r1 = linear_trend(xa, ya.copy(), float(Fraction(c["coef"][1])), c["normalized"])
+                    rx, r1 = linear_trend(xa, ya.copy(), float(Fraction(c["coef"][1])), NZ)
                     seen = None
                 else:
-                    rx, r1 = trend(xa, ya.copy(), rec, c["normalized"])
-                _, r2 = trend(xa, np.array(r1), f2, c["normalized"])
-                _, r0 = trend(xa, ya.copy(), lambda t: 0.0, c["normalized"])
+                    rx, r1 = trend(xa, ya.copy(), rec, NZ)
+                _, r2 = trend(xa, np.array(r1), f2, NZ)
+                _, r0 = trend(xa, ya.copy(), lambda t: 0.0, NZ)
             else:
-                w = Weaver(xa, ya).trend(rec, normalized=c["normalized"])
+                w = Weaver(xa, ya).trend(rec, normalized=NZ)
                 rx, r1 = w.get()
                 r1 = r1.copy()
-                r2 = w.trend(f2, normalized=c["normalized"]).get()[1]
-                r0 = Weaver(xa, ya).trend(lambda t: 0.0, normalized=c["normalized"]).get()[1]
+                r2 = w.trend(f2, normalized=NZ).get()[1]
+                r0 = Weaver(xa, ya).trend(lambda t: 0.0, normalized=NZ).get()[1]
             out = {"x": [float(v) for v in rx], "y1": [float(v) for v in r1], "y2": [float(v) for v in r2],
                    "y0": [float(v) for v in r0], "seen": seen, "caller_y": [float(v) for v in ya]}
             ext = "sin" if c.get("sin") else c.get("ext")
             if ext:
                 g, _ = ext_fun(ext, trend_args(c))
                 if c["via"] == "process":
-                    out["ext"] = [float(v) for v in trend(xa, ya.copy(), g, c["normalized"])[1]]
+                    out["ext"] = [float(v) for v in trend(xa, ya.copy(), g, NZ)[1]]
                 else:
-                    w2 = Weaver(xa, ya).trend(g, normalized=c["normalized"])
+                    w2 = Weaver(xa, ya).trend(g, normalized=NZ)
                     out["ext"] = [float(v) for v in w2.get()[1]]
                     out["ext_x"] = [float(v) for v in w2.get()[0]]
                     out["caller_x"] = [float(v) for v in xa]
